@@ -1062,7 +1062,11 @@ def build_property_case(run):
         if any(k not in sig for k in kw):
             return inp, "a keyword no sub-detector accepts was silently dropped", False
     if status == "typeerror":
-        return inp, None, False
+        # members with DIFFERING signatures: each must be handed exactly the keywords it accepts, so nothing can be
+        # rejected (a TypeError here means some member was handed a keyword it does not take - e.g. same-class
+        # members, CombinedDetector groups or generic stations, whose instances advertise different signatures)
+        return inp, ("TypeError although the members' build signatures differ (every member must receive exactly the "
+                     "keywords it accepts)"), False
     leaves = {}
 
     def walk(x):
